@@ -123,6 +123,45 @@ def draw_header(r):
     return hdr
 
 
+def _inverse_order(hdr):
+    if hdr["ctype1"].endswith("-SIP"):
+        return max(int(hdr.get("a_order", 0)), int(hdr.get("b_order", 0))) + 1
+    return 4            # scamp/TPV polynomials are cubic
+
+
+def _design(u, v, n):
+    return np.stack([u ** p * v ** q for p in range(n + 1) for q in range(n + 1 - p)], axis=1)
+
+
+def _independent_inverse_error(hdr, H, pts):
+    """largest error, at the positions `pts`, of an inverse polynomial fitted independently of esutil's: true pixel =
+    linear estimate (sky -> pixel through the CD matrix alone) + polynomial of total order n in the linear estimate."""
+    n = _inverse_order(hdr)
+    nx, ny = float(hdr["naxis1"]), float(hdr["naxis2"])
+    g = 2 * (n + 2) + 3
+    gx, gy = np.meshgrid(np.linspace(1.0, nx, g), np.linspace(1.0, ny, g))
+    gx, gy = gx.ravel(), gy.ravel()
+    w = H.fresh()
+
+    def linear(x, y):
+        lon, lat = ref_forward(hdr, x, y, True)
+        with warnings.catch_warnings():
+            warnings.simplefilter("ignore")
+            xu, yu = w.sky2image(np.asarray(lon, dtype="f8"), np.asarray(lat, dtype="f8"), distort=False, find=False)
+        return np.asarray(xu, dtype="f8"), np.asarray(yu, dtype="f8")
+    xu, yu = linear(gx, gy)
+    s_, cx, cy = max(nx, ny), nx / 2.0, ny / 2.0
+    A = _design((xu - cx) / s_, (yu - cy) / s_, n)
+    cxs = np.linalg.lstsq(A, gx - xu, rcond=None)[0]
+    cys = np.linalg.lstsq(A, gy - yu, rcond=None)[0]
+    worst = 0.0
+    for xt, yt in pts:
+        xut, yut = linear(xt, yt)
+        At = _design((xut - cx) / s_, (yut - cy) / s_, n)
+        worst = max(worst, float(np.max(np.hypot(xut + At @ cxs - xt, yut + At @ cys - yt))))
+    return worst
+
+
 def is_distorted(hdr):
     return any(k.startswith("pv") or (k[:2] in ("a_", "b_") and not k.endswith("order")) for k in hdr)
 
@@ -367,6 +406,7 @@ def execute(script, run, env):
     ncallers = len(set(op.get("c", 0) for op in script["ops"]))
     prev_c = None
     nofind_err = []
+    nofind_pts = []
     undist_err = []
     bystanders = []
     skybufs = {}
@@ -524,6 +564,7 @@ def execute(script, run, env):
                 else:
                     # fitted polynomial: no number in the statement; the fit must actually undo the distortion
                     nofind_err.append(worst)
+                    nofind_pts.append((np.atleast_1d(np.asarray(x, dtype="f8")).copy(), np.atleast_1d(np.asarray(y, dtype="f8")).copy()))
                     with warnings.catch_warnings():
                         warnings.simplefilter("ignore")
                         xu, yu = H.fresh().sky2image(lon, lat, distort=False, find=False)
@@ -670,10 +711,22 @@ def execute(script, run, env):
         run.checks += 1
         worst, und = max(nofind_err), max(undist_err)
         lim = max(1e-3, 0.5 * und)
+        # "to the fitted-polynomial accuracy": an INDEPENDENT inverse polynomial of the order esutil fits (total order one
+        # above the distortion's, least squares on a grid over the image, in normalised coordinates) says what that
+        # accuracy is at the very positions that were asked; esutil may be 50 times worse (on the unchanged tree it is
+        # 1.5 - 3.5 times worse over 5000 headers), never worse than half of ignoring the distortion
+        eref = None
+        try:
+            eref = _independent_inverse_error(hdr, H, nofind_pts)
+        except Exception:
+            eref = None
+        if eref is not None and np.isfinite(eref):
+            lim = max(1e-3, min(lim, 50.0 * eref))
         run.margin("wcs.nofind", worst / lim)
         if not (worst <= lim):
             run.fail("wcs.nofind", {"proj": proj}, "sky2image(find=False) is off by up to %.3e pixel over the sampled positions; "
-                     "ignoring the distortion altogether gives %.3e" % (worst, und))
+                     "ignoring the distortion altogether gives %.3e, an independent inverse polynomial of the same order %s"
+                     % (worst, und, "%.3e" % eref if eref is not None else "could not be fitted"))
     if run.faults:
         run.nontrivial = True
 
